@@ -22,6 +22,10 @@ CLAIMED = {
             'TLC invariants MarkerIdx/EofClears + refinement; TLC trace validation of EOF/TIMEOUT outcome clauses on every entry point',
             'outcome table (index if listed else exact exception class, before = all pending, after = marker class, pending cleared after EOF, EOF sticky) decided on every recorded call',
             'as C01; real transports are added by the transport checks', '5 C04', 'expect'),
+    'C20': ('model_checking',
+            'TLA+ decision table PatternForms enumerated and checked for consistency by TLC; one implementation test per table row (MongoDB-style): same scripted stream under the form and under the reference pattern',
+            'every row of the table (mode x ignorecase x form x flag set x entry point) is executed on the real code over discriminating streams; rejected rows must raise TypeError with nothing read and pending text intact',
+            'equivalence judged by Python re on both sides; five pattern identities discriminate the flags', '5 C20', 'patternforms'),
 }
 
 NOT_YET = {}
@@ -59,6 +63,8 @@ def main():
             {'name': 'expect', 'path': 'spec/ExpectAbs.tla spec/ExpectImpl.tla spec/ExpectTrace.tla harness/checks/expect_family.py',
              'serves_properties': ['C01', 'C02', 'C03', 'C04'],
              'kind_free_text': 'TLC model checking + TLC batch trace validation of the real expect family on a scripted transport'},
+            {'name': 'patternforms', 'path': 'spec/PatternForms.tla harness/checks/c20.py', 'serves_properties': ['C20'],
+             'kind_free_text': 'TLC-enumerated decision table, one implementation test per row'},
         ],
         'checks': [check_entry(p) for p in props if p in CLAIMED],
         'not_applicable': [{'property_id': p, 'reason': NOT_YET.get(p, 'check not built yet in this round (planned, see DESIGN.md section 5); nothing is claimed for it')}
